@@ -15,9 +15,11 @@ the sliced string itself or a byte-for-byte congruent copy of it (to_ascii_upper
 slice the original off a char boundary (panic) or at the wrong place. Decides the congruence of the searched and the sliced string, not that the arithmetic on the offset is right.
 (e) precedence is encoded by layering of the generated grammar functions (query and PlotQL): or_expr takes its operands from and_expr / or_expr, and_expr from factor / and_expr and never from or_expr / expr,
 factor (NOT) from factor, and a looser level is re-entered from factor only after a matched "(" literal; each level's action builds its own node (Or / And / Not).
+(f) work per command is bounded by the data, not by a value in it: TemporalCalendarIndex::add_zone_range walks every hour bucket between its two bounds, so every call site passes either one value twice
+or a range that a comparison with a constant has bounded (a zone holding two time values centuries apart otherwise makes FLUSH - and every later FLUSH / QUERY of the shard - hang).
 """
-FLOOR = 5
-REQUIRED = ["C17.a1", "C17.a2", "C17.b", "C17.c", "C17.d", "C17.e"]
+FLOOR = 6
+REQUIRED = ["C17.a1", "C17.a2", "C17.b", "C17.c", "C17.d", "C17.e", "C17.f"]
 
 PANIC = re.compile(r"(option::Option::(unwrap|expect|unwrap_unchecked)|result::Result::(unwrap|expect|unwrap_err|expect_err|unwrap_unchecked)|"
                    r"panicking::(panic\w*|unreachable_display|assert_failed\w*|begin_panic\w*)|rt::(begin_panic|panic_fmt)\w*)$")
@@ -503,6 +505,41 @@ def run(ctx):
                     bad.append(("level-node:%s:%s" % (gname, fn[8:]), "%s grammar: %s builds %s (expected Expr::%s only)" % (gname, fn[8:], sorted(built), node[fn]), None))
         return bad
     ctx.run("C17.e", "K4 REACH + K6 TABLE", "generated grammar functions or_expr / and_expr / factor (query, PlotQL)", "NOT binds tighter than AND binds tighter than OR; parentheses override", e)
+
+    def f_(inst):
+        bad, n = [], 0
+        callers = [k for k in F.keys() if not k.startswith("bin:") and any(norm_path(p_ or u_ or "").endswith("TemporalCalendarIndex::add_zone_range") for (bb, p_, u_, virt, sp_, mac, cu, st) in F.cg[k]["c"] if not cu)]
+        for k in callers:
+            if "TemporalCalendarIndex::" in k:
+                continue
+            b = F.fn_exact(k)
+            for c_ in b.find_calls(r"TemporalCalendarIndex::add_zone_range$"):
+                n += 1
+                la, lb = b._origin_locals(c_.args[2], depth=8), b._origin_locals(c_.args[3], depth=8)
+                same = bool(la & lb)
+
+                def acc(op, A, B, truth):
+                    # (max - min) <= CONST  (any orientation)
+                    def is_sub(L):
+                        return any(l[0] == "binop" and l[1].startswith("Sub") for l in L)
+
+                    def is_const(L):
+                        return any(l[0] in ("const", "constitem") for l in L)
+                    if is_sub(A) and is_const(B):
+                        return (op in ("Le", "Lt") and truth) or (op in ("Gt", "Ge") and not truth)
+                    if is_sub(B) and is_const(A):
+                        return (op in ("Ge", "Gt") and truth) or (op in ("Lt", "Le") and not truth)
+                    return False
+                bounded = bool(cmp_guard(b, c_.bb, acc))
+                # the calendar of the core `timestamp` field holds server-assigned clock values (not taken from the payload): its span is the real time a zone covers
+                core = "timestamp" in str_consts(b, c_.args[0], depth=6)
+                inst.sites.append("%s @ %s: same value twice=%s, span bounded by a constant=%s%s" % (base(k).split("::")[-1], sp(b, c_.bb), same, bounded, ", core timestamp calendar (server clock)" if core else ""))
+                if not same and not bounded and not core:
+                    bad.append(("unbounded-bucket-walk:%s" % base(k), "%s calls add_zone_range(min, max) with nothing bounding max - min (%s): one map entry per hour between two values of a zone - two events centuries apart hang the flush worker of the shard" % (base(k), sp(b, c_.bb)), None))
+        if n < 1:
+            raise AnchorMissing("call sites of TemporalCalendarIndex::add_zone_range")
+        return bad
+    ctx.run("C17.f", "K8 GUARD", "callers of TemporalCalendarIndex::add_zone_range", "the calendar bucket walk is bounded", f_)
 
 
 # cycles whose overflow was reproduced against the real code (DESIGN.md §4c); others are reported as notes until triaged
